@@ -39,8 +39,8 @@ static bitmap_t h_mk (void) {
   size_t cap = nd ();
   H_ASSUME (cap >= len && cap >= 1 && cap <= H_MAXW + 3);
   b->els_num = len;
+  b->varr = h_slot_realloc (b->varr, b->size * sizeof (bitmap_el_t), cap * sizeof (bitmap_el_t), NULL);
   b->size = cap;
-  h_ledger_set (b->varr, cap * sizeof (bitmap_el_t));
   for (size_t i = 0; i < H_MAXW; i++) {
     uint64_t v = nd ();
     if (i < len) b->varr[i] = v;
